@@ -1,5 +1,6 @@
 // C17 - shared_future: one result for all copies; state lives exactly as long as needed
 #include <scn/shared_future.h>
+#include <scn/strings.h>
 #define RUN(name, nthreads, wd, call) if (o.want(name)) { vf::report R("C17", name, o); vf::g_active_report = &R; vf::team T(nthreads, o, wd); call; T.export_hits(R); R.write(); vf::g_active_report = nullptr; }
 int main(int argc, char **argv) {
     vf::opts o(argc, argv);
@@ -7,5 +8,6 @@ int main(int argc, char **argv) {
     RUN("shared_future_history", 1, true, scn::shared_future_history(o, R, o.cases));
     RUN("shared_future_mt", o.threads, true, scn::shared_future_mt(o, R, T, o.cases));
     RUN("shared_future_trivial_types", 1, true, scn::shared_future_trivial_types(o, R, o.cases));
+    RUN("shared_future_string_values", 1, true, scn::shared_future_string_values(o, R, o.cases));
     return 0;
 }
